@@ -236,6 +236,7 @@ def run(ctx):
     G.run_families(ctx, __name__, 6, 7, [1, 8])
     k_full, k_core = ctx.pick((2, 2), (3, 3))
     DS.run_levels(ctx, __name__, k_full, k_core)
+    G.run_deep(ctx, __name__, 8)
 
 
 def replay(case):
